@@ -113,6 +113,9 @@ pub fn get(prop: &str, tier: &str) -> Option<Check> {
                 batches.push(Batch { name: "client_racy", f: scen::racy::run_client_racy, cfg: cfg(Mode::Racy, false, 0), runs: n(60_000, 2_000_000), real: REAL_CLIENT_TCP, stub: STUB_CLIENT_TCP });
                 batches.push(Batch { name: "client_racy_faults", f: scen::racy::run_client_racy, cfg: cfg(Mode::Racy, true, 0), runs: n(60_000, 2_000_000), real: REAL_CLIENT_TCP, stub: STUB_CLIENT_TCP });
             }
+            if p == "C13" {
+                batches.push(Batch { name: "tls_client_retry", f: scen::tls::run_client_retry, cfg: cfg(Mode::Racy, false, 0), runs: n(1_500, 60_000), real: REAL_TLS, stub: STUB_TLS });
+            }
             if p == "C14" {
                 batches.push(Batch { name: "tls_client_retry", f: scen::tls::run_client_retry, cfg: cfg(Mode::Racy, false, 0), runs: n(1_500, 60_000), real: REAL_TLS, stub: STUB_TLS });
                 batches.push(Batch { name: "rtu_server_model_faults", f: scen::rtu::run_server_model, cfg: cfg(Mode::LockStep, true, 0), runs: n(30_000, 800_000), real: REAL_SERVER_RTU, stub: STUB_SERVER_RTU });
